@@ -545,3 +545,59 @@ func collisionCases() []Replay {
 	}
 	return out
 }
+
+// rejectCases: every kind of condition the builder must refuse (it passes the grammar) at EVERY position of OR chains,
+// AND chains, negated and nested groups, next to conditions that are fine -- an error from any operand must reach the
+// caller, whatever stands before or after it (a builder that looks at the error of the last operand only, or only
+// when the operand stands alone, accepts the expression with a nil function inside the closure). The good
+// conditions are true on some of the events and false on others, so that a closure which was accepted is really
+// called at every position (|| and && short-circuit).
+var rejectBad = []struct{ what, text string }{
+	{"unknown-operand", `foo = 1`},
+	{"unknown-operand-keyword", `limit = 5`},
+	{"empty-field-name", `fields: = 1`},
+	{"ts-bad-literal", `ts < "yesterday"`},
+	{"ts-bad-operator", `ts = 1552307695000000000`},
+	{"like-bad-pattern-msg", `msg like "["`},
+	{"like-bad-pattern-field", `lower(fields:a) LIKE "[a"`},
+	{"msg-bad-operator", `msg = "a"`},
+	{"bad-function", `trim(msg) contains "a"`},
+	{"bad-arity", `upper(fields:a, msg) = "B"`},
+}
+
+var rejectShapes = []string{
+	"B",
+	"B OR G1", "G1 OR B", "G2 OR B", "B OR G1 OR G2", "G1 OR B OR G2", "G1 OR G2 OR B", "G2 OR G3 OR B",
+	"B AND G1", "G1 AND B", "G2 AND B", "B AND G1 AND G2", "G1 AND B AND G2", "G1 AND G3 AND B",
+	"NOT B", "NOT B OR G1", "G2 OR NOT B", "G1 AND NOT B", "NOT B AND G1",
+	"(B)", "((B)) OR G1", "G2 OR ((B))", "(B OR G1) AND G3", "(G2 OR B) AND G3", "G1 AND (G2 OR B)", "G1 AND (B OR G2)",
+	"G2 OR (B AND G1)", "G2 OR (G1 AND B)", "NOT (B OR G1)", "NOT (G2 OR B)", "NOT (G1 AND B) OR G2", "G2 OR NOT (G1 AND B)",
+	"G2 OR NOT (G2 OR B)", "B AND G1 OR G2", "G1 AND B OR G2", "G2 OR G1 AND B", "G2 OR B AND G1", "G3 AND (G1 OR (G2 OR (B)))",
+	"NOT (NOT (B)) OR G1", "G2 OR NOT (NOT (G2 OR NOT B))",
+}
+
+var rejectEvents = []Ev{
+	{Ts: 1552307695000000000, Msg: "hello a", Fields: [][2]string{{"a", "b"}}},
+	{Ts: 1552307695000000001, Msg: "zzz", Fields: [][2]string{{"a", "c"}}},
+	{Ts: 5, Msg: "", Fields: nil},
+	{Ts: 7, Msg: "a", Fields: [][2]string{{"x", "y"}, {"a", "b"}}},
+}
+
+func rejectCases() (where, query []Replay) {
+	good := strings.NewReplacer("G1", `msg contains "a"`, "G2", `fields:a = b`, "G3", `ts > 0`)
+	for bi, b := range rejectBad {
+		for si, sh := range rejectShapes {
+			text := good.Replace(strings.Replace(sh, "B", b.text, 1))
+			where = append(where, Replay{Kind: "where", Stream: "reject", Text: text, Events: rejectEvents})
+			// a sample of them end to end (the server must answer with an error, not with events and not with a panic)
+			if (bi+si)%9 == 0 {
+				query = append(query, Replay{Kind: "query", Text: text, Events: rejectEvents})
+			}
+		}
+	}
+	// controls: the same shapes with a condition that is fine in place of B
+	for _, sh := range rejectShapes {
+		where = append(where, Replay{Kind: "where", Stream: "reject", Text: good.Replace(strings.Replace(sh, "B", `msg prefix "h"`, 1)), Events: rejectEvents})
+	}
+	return where, query
+}
